@@ -70,3 +70,14 @@ Proof. intros x a. apply align_ok_spec. Qed.
 Lemma align_to_non_pow2_differs :
   L_align_u32_align_to_ok 5 3 = false /\ L_align_u32_align_to 5 3 = 5 /\ align_to W32 3 5 = 6.
 Proof. vm_compute. repeat split; reflexivity. Qed.
+
+(* what each binder of the generated definitions stands for in the source (third audit, F2): a function that starts
+   reading another field or index changes coq/gen/Leaf.v only in these lists *)
+From Coq Require Import List String.
+Import ListNotations.
+Lemma leaf_reads_align :
+  L_align_u32_align_to_args = ["self : u32"%string; "align : u32"%string] /\
+  L_align_u32_aligned_to_args = ["self : u32"%string; "align : u32"%string] /\
+  L_align_usize_align_to_args = ["self : usize"%string; "align : usize"%string] /\
+  L_align_usize_aligned_to_args = ["self : usize"%string; "align : usize"%string].
+Proof. repeat split; reflexivity. Qed.
